@@ -236,7 +236,8 @@ def run(ctx, chk):
                                                                   [fmt(r.ret) for r in rr]), 'src/mem.rs', None)
     callers_t = sorted(set(c[0] for c in prog.callers(TCB)))
     callers_i = sorted(set(c[0] for c in prog.callers(ICB)))
-    guard_ok = callers_t == [RCB] and callers_i == [TCB]
+    guard_ok = bool(callers_t) and set(callers_t) <= families(prog, [RCB]) and bool(callers_i) and \
+        set(callers_i) <= families(prog, [TCB])
     if guard_ok:
         # the call to translate_code_block is control dependent on can_dynarec(ip)
         ipg = absint.Interp(facts, opaque=[TCB, 'cache::CodeCache::call', 'cache::CodeCache::get_address_for_ip', HI_(),
